@@ -4,7 +4,7 @@
    macro step is expanded here into the labels of Ctx.Model ([poll], [minit], [mcomplete]), so that what the
    implementation did is, by construction, compared with a schedule of the model's transition system
    (Ctx/Proofs.v: poll_is_run etc.). *)
-From Coq Require Import String.
+From Coq Require Import String Ascii.
 From VP Require Import Base.Tactics Base.Render Ctx.Model.
 Open Scope string_scope.
 
@@ -118,12 +118,29 @@ Definition ctx_labels (n cap : nat) (blocking : bool) (p : list stream) (ms : li
   let cfg := {| n_ctx := n; cap := cap; mode := if blocking then Block else Drop; prog := p |} in
   let '(os, ls, s, store) := msteps cfg 400 init [] ms in join " " (map str_of_label ls).
 
-(* One case: observations per macro step # routing table # verdicts:
+(* One case in full: observations per macro step # routing table # verdicts:
    D = delivery_exact at the end, K = cut_consistent of every persisted checkpoint (in order) *)
-Definition ctx_case (n cap : nat) (blocking : bool) (p : list stream) (tys : list N) (ms : list macro) : string :=
+Definition ctx_case_full (n cap : nat) (blocking : bool) (p : list stream) (tys : list N) (ms : list macro) : string :=
   let cfg := {| n_ctx := n; cap := cap; mode := if blocking then Block else Drop; prog := p |} in
   let '(os, ls, s, store) := msteps cfg 400 init [] ms in
   join "|" os ++ "#" ++ str_route cfg tys
+  ++ "#D=" ++ str_of_bool (delivery_exactb n s)
+  ++ ";K=" ++ join "," (map (fun cp => str_of_bool (cut_consistentb n cp)) store).
+
+(* printing long strings dominates the cost of a check run, so the per-step observations are compared through a
+   digest (the driver computes the same digest of the implementation's observations and asks for the full string of
+   a case only when the digests differ) *)
+Fixpoint digest_acc (s : string) (h : N) : N :=
+  match s with
+  | EmptyString => h
+  | String c r => digest_acc r (N.modulo (h * 131 + N_of_ascii c) 2305843009213693951)
+  end.
+Definition digest (s : string) : N := digest_acc s 7.
+
+Definition ctx_case (n cap : nat) (blocking : bool) (p : list stream) (tys : list N) (ms : list macro) : string :=
+  let cfg := {| n_ctx := n; cap := cap; mode := if blocking then Block else Drop; prog := p |} in
+  let '(os, ls, s, store) := msteps cfg 400 init [] ms in
+  str_of_N (digest (join "|" os)) ++ "#" ++ str_route cfg tys
   ++ "#D=" ++ str_of_bool (delivery_exactb n s)
   ++ ";K=" ++ join "," (map (fun cp => str_of_bool (cut_consistentb n cp)) store).
 
